@@ -247,6 +247,8 @@ struct World {
     last_op: u8,
     /// last sequence sent per live registration (path, ep, token)
     last_seq: BTreeMap<(String, Ep, Vec<u8>), u32>,
+    /// sequence carried by the last round that notified anybody, per path
+    last_round_seq: BTreeMap<String, u32>,
     dead: bool,
     /// model and implementation disagreed once: later comparisons would only
     /// re-report the same divergence under other clause names
@@ -421,6 +423,7 @@ fn run_direct(ch: &mut Ch, verbose: bool) -> Outcome {
         bigrams: Vec::new(),
         last_op: 0,
         last_seq: BTreeMap::new(),
+        last_round_seq: BTreeMap::new(),
         dead: false,
         diverged: false,
     };
@@ -576,6 +579,7 @@ fn run_marathon(ch: &mut Ch, verbose: bool) -> Outcome {
         bigrams: Vec::new(),
         last_op: 0,
         last_seq: BTreeMap::new(),
+        last_round_seq: BTreeMap::new(),
         dead: false,
         diverged: false,
     };
@@ -682,6 +686,7 @@ pub fn run(ch: &mut Ch, verbose: bool) -> Outcome {
         bigrams: Vec::new(),
         last_op: 0,
         last_seq: BTreeMap::new(),
+        last_round_seq: BTreeMap::new(),
         dead: false,
         diverged: false,
     };
@@ -906,6 +911,18 @@ pub fn run(ch: &mut Ch, verbose: bool) -> Outcome {
                             q.after(d.delay, Ev::ToClient { to: ci, bytes: d.bytes, truth: truth.clone() });
                         }
                     }
+                }
+                // successive notifications of a resource are strictly ordered
+                // (also across the end of one registration and the start of
+                // another: "successive notifications built from it")
+                if !observers.is_empty() {
+                    let seq = seq_before.unwrap_or(0);
+                    if let Some(prev) = w.last_round_seq.get(&path) {
+                        if seq <= *prev {
+                            w.viol.push(Violation::new("C15", "seq-plus-one", format!("round on {:?} notified with sequence {} after an earlier round had used {}", path, seq, prev)).with_sig("resource-order"));
+                        }
+                    }
+                    w.last_round_seq.insert(path.clone(), seq);
                 }
                 // ... then tell the subject
                 let before = w.before_all();
